@@ -180,6 +180,10 @@ def run(case: dict, ctx) -> dict:
         tag=rng.getrandbits(48), seqs=rng.choice([(5, 9), (9, 5), (1, 2), (2**40, 3)]), stale=rng.choice(["valid", "valid", "zero"]),
         meta_item_order=rng.choice([None, "shuffle", "rev"]), item_gap=rng.choice([0, 0, 8, 4096]),
         leave_alloc=rng.random() < 0.4,
+        # regions and metadata items of unknown type that are not marked required: a reader skips them
+        extra_regions=[(bytes(rng.randrange(256) for _ in range(16)), 0) for _ in range(rng.choice([0, 0, 0, 1, 2]))],
+        extra_items=[(bytes(rng.randrange(256) for _ in range(16)), bytes(rng.randrange(256) for _ in range(rng.randrange(1, 200))), rng.choice([0, 1, 2, 3]))
+                     for _ in range(rng.choice([0, 0, 0, 1, 3]))],
         meta_table_order=rng.choice([None, "shuffle", "rev"]), checksums=(bs <= 8 * MB), far_mb=rng.choice([0, 0, 0, 1 << 12, (1 << 20) + 3, 3 << 20, 1 << 30]),
     )
     model = Model(meta["size"], [layer])
